@@ -10,6 +10,7 @@ mod c12;
 mod synth;
 mod c13;
 mod c16;
+mod gsub;
 
 fn main() {
     fvcore::quiet_panics();
@@ -25,6 +26,7 @@ fn main() {
         Some("c12") => c12::main(&args[1..]),
         Some("c13") => c13::main(&args[1..]),
         Some("c16") => c16::main(&args[1..]),
+        Some("gsub") => gsub::main(&args[1..]),
         _ => {
             eprintln!("usage: fv-write <c06|...> ...");
             std::process::exit(2);
